@@ -324,9 +324,10 @@ pub fn check_wire(c: &Case) -> Outcome {
 pub fn def() -> PropDef {
     PropDef {
         id: "C18",
-        rule: "a torrent with generated content (so the info-hash is a uniformly random 20-byte string; two thirds of the cases are steered until the hash contains a chosen special byte such as NUL & % + = space 0xff), an alphanumeric 20-byte peer id, an announce URL with/without port and path, with 0-2 existing query parameters or a trailing '?', total length 0..2^40. Sub url: TrackerClient::create_url (hook) is split at the first '?' and at '&': host/port/path unchanged, every pre-existing parameter still its own parameter, exactly one info_hash whose form-urlencoded decoding (decoder written in the harness) is the 20 hash bytes. Sub wire: the real TrackerClient::run against a loopback HTTP listener that may answer 503 to the first one or two announces (every request, also the repeated ones, is checked); the request line must satisfy the same and carry peer_id, port=6881, left=total length; a valid reply must come back as TrackerCmd::TrackerResp. Non-trivial = hash has a byte that needs escaping or the announce URL has a query; distinct by hash of the case.",
+        rule: "a torrent with generated content (so the info-hash is a uniformly random 20-byte string; two thirds of the cases are steered until the hash contains a chosen special byte such as NUL & % + = space 0xff), an alphanumeric 20-byte peer id, an announce URL with/without port and path, with 0-2 existing query parameters or a trailing '?', total length 0..2^40. Sub url: TrackerClient::create_url (hook) is split at the first '?' and at '&': host/port/path unchanged, every pre-existing parameter still its own parameter, exactly one info_hash whose form-urlencoded decoding (decoder written in the harness) is the 20 hash bytes. Sub wire: the real TrackerClient::run against a loopback HTTP listener that may answer 503 to the first one or two announces (every request, also the repeated ones, is checked); the request line must satisfy the same and carry peer_id, port=6881, left=total length; a valid reply must come back as TrackerCmd::TrackerResp. Sub listen: the unmodified Session::run in a child process inside its own network namespace, with port 6881 free or already taken by another program: a BitTorrent handshake sent to the port named in the announce must be answered with the client's own peer id (a client that refuses to start claims nothing). Non-trivial = hash has a byte that needs escaping or the announce URL has a query; distinct by hash of the case.",
         assumptions: &["peer ids are alphanumeric (the property's domain; TrackerClient unwraps from_utf8 on the id)"],
         subs: vec![
+            crate::e2e::c18_listen_sub(),
             Sub {
                 name: "url",
                 cases: |t| t.pick(300_000, 4_000_000),
